@@ -1127,3 +1127,5 @@ MANIFEST = {
             "for copy(). Two open findings on the unchanged tree (known_findings/C17.json): timedelta64 passes the dtype gate "
             "while tracking; tensor(t, constant=True, copy=False, ndmin>ndim) drops the constant flag inside no_autodiff.",
 }
+
+MANIFEST_ADDENDUM = 'Oracle additions: falsy shape= overrides ((), 0, []) and empty shapes for the *_like routines.'
